@@ -709,6 +709,10 @@ class HTTP1Connection(httputil.HTTPConnection):
         self, delegate: httputil.HTTPMessageDelegate
     ) -> None:
         body = await self.stream.read_until_close()
+        if len(body) > self._max_body_size:
+            # A body delimited by the end of the connection is subject to
+            # the same limit as one announced by Content-Length.
+            raise httputil.HTTPInputError("body too large")
         if not self._write_finished or self.is_client:
             with _ExceptionLoggingContext(app_log):
                 ret = delegate.data_received(body)
